@@ -231,7 +231,7 @@ def compile_rules(environment: "Environment") -> list[tuple[str, str]]:
         ),
     ]
 
-    if environment.line_statement_prefix is not None:
+    if environment.line_statement_prefix:
         rules.append(
             (
                 len(environment.line_statement_prefix),
@@ -239,7 +239,7 @@ def compile_rules(environment: "Environment") -> list[tuple[str, str]]:
                 r"^[ \t\v]*" + e(environment.line_statement_prefix),
             )
         )
-    if environment.line_comment_prefix is not None:
+    if environment.line_comment_prefix:
         rules.append(
             (
                 len(environment.line_comment_prefix),
